@@ -39,10 +39,11 @@ def timesInRangeb (z : Zone) : Bool := allIdx z.transitions.size (fun i => decid
 
 def firstEntryRoomb (z : Zone) : Bool := decide (i64min ≤ timeOf z 0 + offOf z 0 - offBefore z 0)
 
-/-- recorded times within ±2^59 and the last generated entry late enough for the 400-year shift of
-lookups up to max() not to overflow (`Tame` of DESIGN.md) -/
+/-- recorded times within ±2^59 and the last generated entry late enough (strictly after
+INT64_MAX mod kSecsPer400Years = 7161147007, see `C10Safe.breakTime_ok_counterexample`) for the
+400-year shift of lookups up to max() not to overflow (`Qo.Tame'` of the C10 theorems) -/
 def tameb (z : Zone) : Bool :=
   allIdx z.transitions.size (fun i => decide (-576460752303423488 ≤ timeOf z i ∧ timeOf z i ≤ 576460752303423488)) &&
-  (!z.extended || decide (7161147007 ≤ timeOf z (z.transitions.size - 1)))
+  (!z.extended || decide (7161147008 ≤ timeOf z (z.transitions.size - 1)))
 
 end Cctz.TableCheck
